@@ -108,21 +108,29 @@ theorem affine_ld (p : Affine ℝ) (h : p.scale ≠ 0) :
     (p.toBij : Bij ℝ C ℝ).LdCorrectWith univ (fun _ => p.scale) := by
   intro x _ c
   refine ⟨?_, h, by simp [Affine.toBij, Affine.transform_and_log_det]⟩
-  simp only [Affine.toBij, Affine.transform]
-  simpa using ((hasDerivAt_id x).mul_const p.scale).add_const p.loc
+  -- robust to the order in which the source writes the sum / product
+  have key : ∀ y, (p.toBij : Bij ℝ C ℝ).fwd y c = y * p.scale + p.loc := by
+    intro y; simp only [Affine.toBij, Affine.transform] <;> ring
+  have hd : HasDerivAt (fun y : ℝ => y * p.scale + p.loc) p.scale x := by
+    simpa using ((hasDerivAt_id x).mul_const p.scale).add_const p.loc
+  exact hd.congr_of_eventuallyEq (Filter.Eventually.of_forall key)
 
 theorem loc_ld (p : Loc ℝ) : (p.toBij : Bij ℝ C ℝ).LdCorrectWith univ (fun _ => 1) := by
   intro x _ c
   refine ⟨?_, one_ne_zero, by simp [Loc.toBij, Loc.transform_and_log_det]⟩
-  simp only [Loc.toBij, Loc.transform]
-  simpa using (hasDerivAt_id x).add_const p.loc
+  have key : ∀ y, (p.toBij : Bij ℝ C ℝ).fwd y c = y + p.loc := by
+    intro y; simp only [Loc.toBij, Loc.transform] <;> ring
+  have hd : HasDerivAt (fun y : ℝ => y + p.loc) 1 x := by simpa using (hasDerivAt_id x).add_const p.loc
+  exact hd.congr_of_eventuallyEq (Filter.Eventually.of_forall key)
 
 theorem scale_ld (p : Scale ℝ) (h : p.scale ≠ 0) :
     (p.toBij : Bij ℝ C ℝ).LdCorrectWith univ (fun _ => p.scale) := by
   intro x _ c
   refine ⟨?_, h, by simp [Scale.toBij, Scale.transform_and_log_det]⟩
-  simp only [Scale.toBij, Scale.transform]
-  simpa using (hasDerivAt_id x).mul_const p.scale
+  have key : ∀ y, (p.toBij : Bij ℝ C ℝ).fwd y c = y * p.scale := by
+    intro y; simp only [Scale.toBij, Scale.transform] <;> ring
+  have hd : HasDerivAt (fun y : ℝ => y * p.scale) p.scale x := by simpa using (hasDerivAt_id x).mul_const p.scale
+  exact hd.congr_of_eventuallyEq (Filter.Eventually.of_forall key)
 
 theorem exp_ld : (Exp.toBij : Bij ℝ C ℝ).LdCorrectWith univ Real.exp := by
   intro x _ c
@@ -166,17 +174,17 @@ theorem leaky_tr_pos {p : LeakyTanh ℝ} (h : Leaves.LeakyWF p) {x : ℝ} (hx : 
     p.transform x = p.linear_grad * x + p.intercept := by
   have hxp : 0 < x := lt_of_lt_of_le h.m_pos hx
   have : p.max_val ≤ |x| := by rwa [abs_of_pos hxp]
-  unfold LeakyTanh.transform; simp [this, jsign_pos hxp]
+  rw [Leaves.leaky_transform_def]; simp [this, jsign_pos hxp]
 
 theorem leaky_tr_neg {p : LeakyTanh ℝ} (h : Leaves.LeakyWF p) {x : ℝ} (hx : x ≤ -p.max_val) :
     p.transform x = p.linear_grad * x - p.intercept := by
   have hxn : x < 0 := by linarith [h.m_pos]
   have : p.max_val ≤ |x| := by rw [abs_of_neg hxn]; linarith
-  unfold LeakyTanh.transform; simp [this, jsign_neg hxn]; ring
+  rw [Leaves.leaky_transform_def]; simp [this, jsign_neg hxn]; ring
 
 theorem leaky_tr_mid {p : LeakyTanh ℝ} {x : ℝ} (hx : |x| < p.max_val) :
     p.transform x = Real.tanh x := by
-  unfold LeakyTanh.transform; simp [not_le.mpr hx]
+  rw [Leaves.leaky_transform_def]; simp [not_le.mpr hx]
 
 /-- on `(-m, m]` the map is `tanh` — at `m` because the value is matched -/
 theorem leaky_tr_Ioc {p : LeakyTanh ℝ} (h : Leaves.LeakyWF p) {x : ℝ} (hx : x ∈ Ioc (-p.max_val) p.max_val) :
